@@ -238,7 +238,11 @@ func c20Defaults(q *c20Req, remote, remotePort string) [][2]string {
 		d = append(d, [2]string{k, q.Empty})
 	}
 	if q.HasRec {
-		d = append(d, [2]string{"{status}", strconv.Itoa(q.RecStatus)}, [2]string{"{size}", strconv.Itoa(q.RecSize)})
+		size := q.RecSize
+		if q.Method == "HEAD" {
+			size = 0 // the body of a response to HEAD is never sent
+		}
+		d = append(d, [2]string{"{status}", strconv.Itoa(q.RecStatus)}, [2]string{"{size}", strconv.Itoa(size)})
 	} else {
 		d = append(d, [2]string{"{status}", q.Empty}, [2]string{"{size}", q.Empty})
 	}
